@@ -204,8 +204,8 @@ class Scen(CompScenario):
 class Prop(PropBase):
     ID = "C22"
     tiers = {
-        "quick": {"runs": 480, "selftest_runs": 4},
-        "thorough": {"runs": 9000, "selftest_runs": 32},
+        "quick": {"runs": 1600, "selftest_runs": 4, "shrink_budget_s": 5},
+        "thorough": {"runs": 28000, "selftest_runs": 32, "shrink_budget_s": 30},
     }
     rule = ("one run = one (depth, shape, granularity, read ports, write ports) configuration driven for 60-200 cycles "
             "by a seeded phase plan (random / chase: reads aimed at the rows written now and one cycle ago / "
@@ -219,7 +219,8 @@ class Prop(PropBase):
     real = ["transactron.lib.storage.AsyncMemoryBank", "amaranth.lib.memory.Memory (comb read ports)",
             "transactron.lib.adapters.AdapterTrans", "TransactionManager + scheduler", "amaranth pysim"]
     stubs = ["cycle driver (stimulus)", "array reference model"]
-    assumptions = ["addresses stay below depth", "no two write calls address the same row in one cycle (premise)"]
+    assumptions = ["addresses stay below depth", "no two write calls address the same row in one cycle (premise)",
+                   "rows that were never written read as the memory's initial content (zero)"]
     search_space = "AsyncMemoryBank configurations x read/write call histories"
 
     def gen_config(self, rng, tier, idx):
